@@ -86,6 +86,10 @@ class WGen:
         return A.prog([], [f]), kind
 
     def value(self, t):
+        if t["k"] == "vec":
+            return [self.value({"k": t["c"]}) for _ in range(t["n"])]
+        if t["k"] == "mat":
+            return [[self.value({"k": t["c"]}) for _ in range(t["n"])] for _ in range(t["r"])]
         if t["k"] == "uint":
             # unsigned arguments on both sides of the sign bit
             return self.r.choice([0, 1, 3, 100, 2 ** 31 - 1, 2 ** 31, 4000000000, 2 ** 32 - 1])
@@ -163,6 +167,44 @@ def structural():
                       ("flt", B("+", B("+", pf, L(c)), B("<", pi, L(c))))):
             rt = FLOAT if nm == "flt" else INT
             out.append((f"shared{nm}{c}", A.prog([], [A.func("f0", [("p0", FLOAT), ("p1", INT)], rt, A.block([A.ret(e)]), True)])))
+    # --- edges of the signature / return / literal handling (added after round 5: four kinds of invalid modules were emitted silently) ---
+    # int literals at and beyond the ends of the 32-bit ranges, in int and uint functions
+    for c in (2147483647, 2147483648, 4000000000, 4294967295, 4294967296, 1099511627776, -2147483648, -2147483649, -4294967296):
+        for t, tn in ((INT, "i"), (A.UINT, "u")):
+            for op in ("+", "/", "<"):
+                out.append((f"big{tn}{op}{c}", A.prog([], [A.func("f0", [("p0", t)], INT if op == "<" else t, A.block([A.ret(B(op, V("p0"), L(c)))]), True)])))
+    # the returned expression has another scalar type than the function declares
+    for nm, params, rt, e in (("lit-i-in-f", [("p0", FLOAT)], FLOAT, L(1)), ("par-i-in-f", [("p0", FLOAT), ("p1", INT)], FLOAT, V("p1")),
+                              ("sum-i-in-f", [("p0", INT), ("p1", INT)], FLOAT, B("+", V("p0"), V("p1"))), ("cmp-in-f", [("p0", FLOAT)], FLOAT, B("<", V("p0"), A.lit_f(1, 1))),
+                              ("par-f-in-i", [("p0", FLOAT)], INT, V("p0")), ("lit-f-in-i", [("p0", INT)], INT, A.lit_f(3, 1)), ("mul-f-in-i", [("p0", FLOAT)], INT, B("*", V("p0"), A.lit_f(2, 0))),
+                              ("par-u-in-i", [("p0", A.UINT)], INT, V("p0")), ("par-i-in-u", [("p0", INT)], A.UINT, V("p0")), ("par-u-in-f", [("p0", A.UINT)], FLOAT, V("p0"))):
+        out.append((f"retconv:{nm}", A.prog([], [A.func("f0", params, rt, A.block([A.ret(e)]), True)])))
+    # functions that can reach their end without a return statement; void functions with and without one
+    for tn, t in (("i", INT), ("f", FLOAT), ("u", A.UINT)):
+        out.append((f"noret:empty{tn}", A.prog([], [A.func("f0", [("p0", t)], t, A.block([]), True)])))
+        out.append((f"noret:expr{tn}", A.prog([], [A.func("f0", [("p0", t)], t, A.block([A.estmt(B("+", V("p0"), V("p0")))]), True)])))
+        out.append((f"noret:second{tn}", A.prog([], [A.func("f0", [("p0", t)], t, A.block([A.ret(V("p0"))]), True), A.func("f1", [("p0", t)], t, A.block([A.estmt(B("*", V("p0"), V("p0")))]), True)])))
+        out.append((f"void:empty{tn}", A.prog([], [A.func("f0", [("p0", t)], A.VOID, A.block([]), True)])))
+        out.append((f"void:expr{tn}", A.prog([], [A.func("f0", [("p0", t)], A.VOID, A.block([A.estmt(B("+", V("p0"), V("p0")))]), True)])))
+        out.append((f"void:ret{tn}", A.prog([], [A.func("f0", [("p0", t)], A.VOID, A.block([A.ret()]), True), A.func("f1", [("p0", t)], t, A.block([A.ret(V("p0"))]), True)])))
+    # vector / matrix types in a signature (next to a scalar function that can be translated)
+    for nm, vt in (("float2", A.vec("float", 2)), ("float4", A.vec("float", 4)), ("int3", A.vec("int", 3)), ("float3x3", A.mat("float", 3, 3))):
+        ok = A.func("f1", [("p0", FLOAT)], FLOAT, A.block([A.ret(B("+", V("p0"), V("p0")))]), True)
+        out.append((f"sig:param-{nm}", A.prog([], [A.func("f0", [("p0", vt), ("p1", FLOAT)], FLOAT, A.block([A.ret(V("p1"))]), True), ok])))
+        out.append((f"sig:param-only-{nm}", A.prog([], [A.func("f0", [("p0", vt)], INT, A.block([A.ret(L(1))]), True)])))
+        out.append((f"sig:ret-{nm}", A.prog([], [ok, A.func("f0", [("p0", vt)], vt, A.block([A.ret(V("p0"))]), True)])))
+    # a function that is NOT exported and not called next to an exported one: a helper the backend cannot translate must not leave a
+    # half-registered function behind (declared, exported or typed, but without a body)
+    for nm, body in (("plain", [A.ret(B("*", V("p0"), L(3)))]), ("local", [A.decl("t", INT, V("p0")), A.ret(V("t"))]),
+                     ("branch", [A.if_(B(">", V("p0"), L(0)), A.block([A.ret(L(1))])), A.ret(L(2))]),
+                     ("loop", [A.decl("i", INT, L(0)), A.while_(B("<", V("i"), V("p0")), A.block([A.estmt(A.asg(V("i"), B("+", V("i"), L(1))))])), A.ret(V("i"))]),
+                     ("cast", [A.ret(B("*", V("p0"), A.cons(INT, [A.lit_f(5, 1)])))])):
+        helper = A.func("h0", [("p0", INT)], INT, A.block(body), False)
+        okf = A.func("f0", [("p0", INT)], INT, A.block([A.ret(B("+", V("p0"), L(1)))]), True)
+        okg = A.func("f1", [("p0", FLOAT)], FLOAT, A.block([A.ret(B("*", V("p0"), V("p0")))]), True)
+        out.append((f"helper-first:{nm}", A.prog([], [helper, okf])))
+        out.append((f"helper-last:{nm}", A.prog([], [okf, helper])))
+        out.append((f"helper-mid:{nm}", A.prog([], [okf, helper, okg])))
     for n, e in [(0, 0), (1, 0), (1, 1), (3, 2), (255, 3), (1, 10), (16777215, 0)]:
         out.append((f"fc{n}_{e}", A.prog([], [A.func("f0", [("p0", FLOAT)], FLOAT, A.block([A.ret(B("+", V("p0"), A.lit_f(n, e)))]), True)])))
     return out
